@@ -307,6 +307,14 @@ fn extra_cases() -> Vec<Case> {
             v.push(Case::new(format!("key := \"k\"\no := {{\"k\": {}}}\nw := {{\"o\": o}}\nprint(\"pre\")\n{} {} {}\nprint(o.k)\nprint(o[\"k\"])\n", start, target, op, by), 601, format!("{} {} {} on {}", start, op, by, target)));
         }
     }
+    // iteration sees the object as it is when the loop starts, every time
+    for upd in ["o.a = 10", "o[\"a\"] = 10", "o.a += 5", "o.b = o.a", "o.a = [o.a]", "p := o\np.a = 10"] {
+        v.push(Case::new(format!("o := {{\"b\": 2, \"a\": 1}}\nfor [k, x] in o {{\nprint([k, x])\n}}\n{}\nfor [k, x] in o {{\nprint([k, x])\n}}\nt := 0\nfor e in o {{\nt += 1\n}}\nprint(t)\n{}\nfor e in o {{\nprint(e)\n}}\n", upd, upd), 601, format!("iterate, {}, iterate again", upd.replace('\n', "; "))));
+    }
+    // chains of reads through a graph that returns to its start, spelled with `.` and with `[]`
+    for chain in ["root.child.parent.name", "root[\"child\"][\"parent\"][\"name\"]", "root.child[\"parent\"].name", "root.child.parent.child.parent.name", "root.self.self.name", "root.child.parent.child.name"] {
+        v.push(Case::new(format!("root := {{\"name\": \"R\"}}\nchild := {{\"name\": \"C\", \"parent\": root}}\nroot.child = child\nroot.self = root\nprint({})\nx := {}\nprint(x == \"R\" || x == \"C\")\n", chain, chain), 601, format!("read chain {}", chain)));
+    }
     // the shorthand `{a}` means `{"a": a}` wherever `a` is declared
     for ctxt in ["@", "{\n@}\n", "if true {\n@}\n", "for e in [1] {\n@}\n", "fn f() {\n@}\nf()\n", "fn f(b) {\n@}\nf(2)\n", "g := fn () {\n{\n@}\n}\ng()\n", "ob := {\"m\": fn () {\n@}}\nob.m()\n", "fn f() {\nreturn fn () {\n@}\n}\nf()()\n", "i := 0\nwhile i < 1 {\ni += 1\n@}\n"] {
         for body in ["print({a})\n", "print({a, \"z\": 0})\n", "q := {a}\nprint(q.a)\n", "a2 := 5\nprint({a, a2})\n", "print({a} == {\"a\": a})\n"] {
